@@ -440,7 +440,7 @@ func c09(c *Ctx) {
 	})
 
 	c.Rule("C09.R8", "T is the arrival time: the timestamp that starts a series' expiry interval is read after the datagram was received, not before the receiver started waiting for it (C05.R4's receive-time obligations, shared)", 2, func(r *Rule) {
-		importObligations(c, r, c05, "C05.R4", func(k string) bool { return strings.HasPrefix(k, "Receive:timestamp") })
+		importObligations(c, r, c05, "C05.R4", func(k string) bool { return strings.HasPrefix(k, "Receive:timestamp") || strings.HasPrefix(k, "timestamp:") })
 	})
 
 	c.Rule("C09.R7", "the per-type expiry defaults are taken from expiry-interval only after every configuration source was loaded (no config-file read / flag parse can follow the SetDefault(expiry-interval-<type>, GetDuration(expiry-interval)) calls)", 5, func(r *Rule) {
@@ -620,12 +620,13 @@ func c09(c *Ctx) {
 		}
 	})
 
-	c.Rule("C09.R6", "a series' timestamp is the newest datapoint time: merges only raise it (C07.R1-R4 timestamp obligations)", 12, func(r *Rule) {
+	c.Rule("C09.R6", "a series' timestamp is the newest datapoint time: merges only raise it, and no datapoint is skipped (C07.R1-R4 timestamp obligations, C07.R5c)", 12, func(r *Rule) {
 		sub := &Ctx{W: w, Prop: c.Prop, Tier: c.Tier, known: c.known}
 		c07(sub)
 		for _, sr := range sub.Rules {
 			for _, o := range sr.Obls {
-				if strings.Contains(o.Key, "Timestamp") {
+				// R5c: every datapoint is stored (one that is skipped neither creates its series nor moves its time)
+				if strings.Contains(o.Key, "Timestamp") || sr.ID == "C07.R5c" {
 					o2 := *o
 					o2.Rule = "C09.R6"
 					o2.Key = sr.ID + "/" + o.Key
